@@ -17,6 +17,7 @@ EXPLANATION = (
     "assignment, read of a non-Const variable, call of a callee whose purity is not Pure) test ctx.inside_pure un-negated, "
     "unconditionally in their arm, and return Err; (PURITY-UNIFY) sub_unify rejects exactly (Pure,Impure) and (Impure,Pure); "
     "function literals record Pure/Impure from `pu`/`fn`, annotations Pure/Undefined; copying a function type keeps its purity."
+    ' (PURITY-UNIFY merge/external) the purity a wildcard meets is written to both unified nodes, and an external declared `fn` is impure.'
 )
 UNDECIDED = "purity through `external` declarations (trusted annotations) and completeness for callees of Undefined purity."
 
